@@ -53,6 +53,7 @@ type byzantine struct {
 	forgedAt    map[string]*forgedInfo // "height/round" of a forged proposal
 	fsst        *fsState               // fast-sync lies (fastsync.go)
 	fastsync    bool
+	starveParts bool // fastsync profile: withhold block parts from the laggard (it has the votes, not the block)
 	rawBlocks   map[int64][][]byte // height -> complete block encodings seen on the wire (valid proposals of anybody)
 }
 
@@ -317,6 +318,10 @@ func (b *byzantine) rewriteBatch(src *node, ms []outMsg) []routed {
 			}
 		case b.fastsync && m.proto == module.ProtoFastSync && m.kind == sendUnicast && (m.sub == fastsync.ProtoBlockMetadata || m.sub == fastsync.ProtoBlockData):
 			out = append(out, routed{nil, b.rewriteFastSync(src, m)})
+		case b.fastsync && b.starveParts && m.sub == consensus.ProtoBlockPart && m.kind == sendUnicast && s.laggard != nil && s.nodeByPeer(m.dst) == s.laggard && t.Permille("fs.starve", 900):
+			// the laggard gets the commit precommits of its height from this node's syncer but not the block
+			// parts: it sits in the commit step without a block and depends on what fast sync delivers
+			s.rc.Fault("byz_block_part_withheld_from_laggard")
 		default:
 			if b.withholdPm > 0 && t.Permille("byz.withhold", b.withholdPm) {
 				s.rc.Fault("byz_withhold")
